@@ -694,6 +694,10 @@ def judge_real(c, r):
         bad.append(("C04", "real backend %s: the Parallel call did not terminate (watchdog 60 s, confirmed with 150 s); "
                            "calls finished before: %d; failure injected: tasks %s (%s), input %s" % (
                                c["backend"], len(r["calls"]), c["tfail"], c.get("exc"), c["ifail"])))
+    if c.get("spawn") and r.get("orphans"):
+        bad.append(("C04", "real backend %s%s: %d of the %d processes started by the tasks of the failed call were still running "
+                           "3 s after the call had raised: the abort did not kill the workers' process trees" % (
+                               c["backend"], " inside a with block" if c.get("with_block") else "", r["orphans"], r.get("spawned", 0))))
     for k, call in enumerate(r["calls"]):
         cn = k + 1
         tf = c["tfail"] if k == 0 else []
@@ -788,6 +792,9 @@ def fixed_real_cases():
             out.append(dict(base, backend=backend, n_jobs=2, exc=exc, with_block=(exc == "UnpicklableRet")))
     for backend, nj in (("threading", 2), ("threading", 3), ("sequential", 1)):
         out.append(dict(base, backend=backend, n_jobs=nj, exc="Finicky"))
+    # the tasks of a failing loky call have started processes of their own: the abort kills the workers' process trees
+    for managed in (False, True):
+        out.append(dict(base, backend="loky", n_jobs=3, N=3, tfail=[0], with_block=managed, slow=8.0, batch_size=1, spawn=True))
     # a task fails at once while the others take their time: the input must not be consumed much further (C09), whatever
     # the way the failure reaches the caller (raised in the worker, reported by the pool's error callback, refused at
     # hand-over)
